@@ -238,3 +238,12 @@ def cli_call(ctx):
               ctx.where(fa, zc[0]), found=b.get('outfile'), expected='--out, or derived from the input path')
     for p in ('chunksize', 'nproc'):
         ctx.eq(R, p, b.get(p), V(p), ctx.where(fa, zc[0]))
+
+
+_run_core = run
+
+
+def run(ctx):
+    _run_core(ctx)
+    from . import refs_misc
+    refs_misc.run_for(ctx, 'C09')
